@@ -193,7 +193,9 @@ fn tok_weight(t: Tok, e: i32) -> Option<f64> {
     }
 }
 
-const TYPES: [&str; 11] = ["i32", "u32", "u64", "usize", "u8", "i16", "u16", "isize", "f32", "i64arr", "f64box"];
+/// `frac10` / `frac3` / `frac997`: the integers times 0.1, 1/3, 1/997 as `f64` — INEXACT weights (sums
+/// depend on the order of the additions): judged for termination, panics and the id range only.
+const TYPES: [&str; 14] = ["i32", "u32", "u64", "usize", "u8", "i16", "u16", "isize", "f32", "i64arr", "f64box", "frac10", "frac3", "frac997"];
 
 /// largest total the weight type can hold exactly (and, for f32, for which the f32 thresholds
 /// order integer prefixes exactly like the f64 thresholds do)
@@ -1019,6 +1021,15 @@ fn run_typed(ctx: &mut Ctx, op: &str, t: usize, ty: String, dims: Vec<usize>, it
                 let b: Box<[f64]> = w.iter().map(|&x| x as f64).collect();
                 call_typed(&d, &mut p, &b, iter)
             }
+            "frac10" | "frac3" | "frac997" => {
+                let f = match ty2.as_str() {
+                    "frac10" => 0.1,
+                    "frac3" => 1.0 / 3.0,
+                    _ => 1.0 / 997.0,
+                };
+                let v: Vec<f64> = w.iter().map(|&x| x as f64 * f).collect();
+                call_typed(&d, &mut p, &v, iter)
+            }
             _ => match w.len() {
                 // "i64arr": a reference to an array
                 4 => call_typed(&d, &mut p, &<[i64; 4]>::try_from(&w[..]).unwrap(), iter),
@@ -1035,7 +1046,15 @@ fn run_typed(ctx: &mut Ctx, op: &str, t: usize, ty: String, dims: Vec<usize>, it
     let out = match res {
         Caught::Ok((ids, reference)) => {
             ctx.count("out_ids");
-            if let Some(i) = (0..glen).find(|&i| ids[i] != reference[i]) {
+            if ty.starts_with("frac") {
+                // inexact weights: no exact claim about the cuts; every cell written, ids below 2^iter
+                ctx.count("frac_weights_runs");
+                if let Some(i) = (0..glen).find(|&i| ids[i] == usize::MAX) {
+                    verdict = Some(("grid-rcb-cell-not-written", format!("cell {} was not written ({} weights)", i, ty)));
+                } else if let Some(i) = (0..glen).find(|&i| iter < 60 && ids[i] >= (1usize << iter)) {
+                    verdict = Some(("grid-rcb-id-out-of-range", format!("cell {}: id {} >= 2^{} ({} weights)", i, ids[i], iter, ty)));
+                }
+            } else if let Some(i) = (0..glen).find(|&i| ids[i] != reference[i]) {
                 verdict = Some((
                     "input-type-dependent@grid_rcb",
                     format!("cell {}: id {} with {} weights, {} with {} weights", i, ids[i], ty, reference[i], if float { "f64" } else { "i64" }),
@@ -2330,6 +2349,96 @@ fn malformed(ctx: &mut Ctx) {
     }
 }
 
+/// INEXACT-WEIGHTS stream: non-dyadic `f64` weights (integers times 0.1, 1/3, 1/997) on SPARSE layouts —
+/// all the weight in one column / one line of cells (so that one slab carries its box's whole weight,
+/// spread over three or more cells), trailing rows or planes of zeros (the last probed chunk carries no
+/// weight), a heavy band next to zeros, random sparse — where two sums of the same numbers taken in
+/// different orders differ in the last place. No exact claim about the cuts there; Grid::rcb must still
+/// return, without panic, with every cell written and every id below 2^iter (ops `rcbt2|rcbt3 … frac*`).
+fn inexact_stream(ctx: &mut Ctx) {
+    let n_cases = ctx.budget(240, 6000);
+    for c in 0..n_cases {
+        if too_many_hangs(ctx) {
+            return;
+        }
+        let three = c % 3 == 2;
+        let dims: Vec<usize> = if three {
+            vec![1 + ctx.rng.usize(5), 1 + ctx.rng.usize(5), 1 + ctx.rng.usize(5)]
+        } else {
+            vec![1 + ctx.rng.usize(9), 1 + ctx.rng.usize(9)]
+        };
+        let n: usize = dims.iter().product();
+        let mut ws = vec![0i64; n];
+        let shape = ctx.rng.usize(6);
+        let hi = *ctx.rng.pick(&[9i64, 50, 3000]);
+        // cell index of (x, y, z): x fastest
+        let idx = |x: usize, y: usize, z: usize| x + dims[0] * (y + dims[1] * z);
+        let (dz, dy) = (if three { dims[2] } else { 1 }, dims[1]);
+        match shape {
+            0 => {
+                // one column (fixed x): every cell of it weighs something
+                let x = ctx.rng.usize(dims[0]);
+                for z in 0..dz {
+                    for y in 0..dy {
+                        ws[idx(x, y, z)] = ctx.rng.range(1, hi);
+                    }
+                }
+            }
+            1 => {
+                // one row / line (fixed y and z)
+                let (y, z) = (ctx.rng.usize(dy), ctx.rng.usize(dz));
+                for x in 0..dims[0] {
+                    ws[idx(x, y, z)] = ctx.rng.range(1, hi);
+                }
+            }
+            2 => {
+                // trailing rows (or planes) of zeros, the rows before them heavy
+                for z in 0..dz {
+                    for y in 0..dy {
+                        for x in 0..dims[0] {
+                            let last = if three { z + 1 == dz } else { y + 1 == dy };
+                            ws[idx(x, y, z)] = if last { 0 } else { ctx.rng.range(0, hi) };
+                        }
+                    }
+                }
+            }
+            3 => {
+                // a heavy band next to light cells
+                let y0 = ctx.rng.usize(dy);
+                for (i, w) in ws.iter_mut().enumerate() {
+                    let y = (i / dims[0]) % dy;
+                    *w = if y == y0 { ctx.rng.range(hi / 2 + 1, hi) * 4 } else { ctx.rng.range(0, 2) };
+                }
+            }
+            4 => {
+                // random sparse
+                for w in ws.iter_mut() {
+                    *w = if ctx.rng.usize(3) == 0 { ctx.rng.range(1, hi) } else { 0 };
+                }
+            }
+            _ => {
+                for w in ws.iter_mut() {
+                    *w = ctx.rng.range(0, hi);
+                }
+            }
+        }
+        if ws.iter().all(|&w| w == 0) {
+            ws[0] = 1;
+        }
+        let iter = 1 + ctx.rng.usize(5);
+        let t = *ctx.rng.pick(&THREADS);
+        let ty = *ctx.rng.pick(&["frac10", "frac3", "frac997"]);
+        ctx.count(&format!("inexact:shape{}", shape));
+        let op = if three {
+            format!("rcbt3 {} {} {} {} {} {} {} {}", t, ty, dims[0], dims[1], dims[2], iter, n, join(&ws))
+        } else {
+            format!("rcbt2 {} {} {} {} {} {} {}", t, ty, dims[0], dims[1], iter, n, join(&ws))
+        };
+        run_op(ctx, &op);
+    }
+    ctx.notes.push("INEXACT-WEIGHTS stream: integers times 0.1, 1/3, 1/997 on sparse layouts (one column, one line, trailing zero rows, heavy band, random sparse), 2-D and 3-D, iter 1..5: termination, no panic, every cell written, ids below 2^iter".to_string());
+}
+
 pub fn generate(ctx: &mut Ctx) {
     first_calls_shuffled(ctx);
     fixed_cases(ctx);
@@ -2344,6 +2453,8 @@ pub fn generate(ctx: &mut Ctx) {
     random_med(ctx);
     index_maps(ctx);
     malformed(ctx);
+    // last, so that the streams above draw what they drew before
+    inexact_stream(ctx);
     if too_many_hangs(ctx) {
         ctx.notes.push(format!(
             "generation cut short after {} watchdog timeouts ({} s each)",
